@@ -295,6 +295,23 @@ pub fn net_any(max_n: usize) -> impl Strategy<Value = NetCase> {
     (raw_net(max_n), any::<bool>()).prop_map(|(r, m)| materialise(&r, m))
 }
 
+/// large chains and lattices (n between max_n/2 and max_n): routes of hundreds of edges
+pub fn net_long(max_n: usize) -> impl Strategy<Value = NetCase> {
+    (raw_net(max_n), any::<bool>(), any::<bool>()).prop_map(move |(mut r, m, chain)| {
+        r.shape = if chain { 3 } else { 1 };
+        r.n = r.n.max(3 * max_n / 4);
+        if chain {
+            // an unbroken chain (the generic shapes drop 15 % of their edges)
+            for k in r.keep.iter_mut() {
+                *k = true;
+            }
+            // at most two chords: more would shorten every route to a few edges
+            r.extra.truncate(2);
+        }
+        materialise(&r, m)
+    })
+}
+
 /// an (origin, destination) pair of distinct vertices, as raw values to be mapped
 pub fn od_pair(n: usize, a: u16, b: u16) -> (usize, usize) {
     let o = pick_idx(a, n);
